@@ -752,7 +752,7 @@ func TestEnvelopeCollisions(t *testing.T) {
 		if rapid.Bool().Draw(rt, "mirror") {
 			a, b = b, a
 		}
-		k := drawKeyOpt(rt, "k", mixEnvelope)
+		k := drawKeyOpt(rt, "k", keyMix{other: 1}) // the signer is verified ~12 times per case
 		s, err := sealRecord(&hrec{domain: a.d, codec: a.t, payload: a.p}, k, "hrec")
 		if err != nil {
 			rt.Fatalf("Seal: %v", err)
